@@ -437,6 +437,20 @@ def lat_stats(stats, d, case):
         inc("lattice:last-exit-before-last-frame")
     if d["final"] and not d["hyp"]:
         inc("final-state-not-reached-or-no-word")
+    # which branches of fsg_search_lattice / the model's buildLattice this request went through
+    if G.get("n_nodes_field", len(N)) > len(N) + (1 if sm else 0) + (1 if em else 0) - 2 * 0 and G.get("n_nodes_field", 0) > len(N):
+        inc("branch:unreachable-nodes-deleted")
+    if any(n["fef"] < n["lef"] for n in N if n["state"] != -1):
+        inc("branch:new_node-updates-existing-node")
+    if any(N[l["dst"]]["fil"] and l["dst"] not in (G["start"], G["end"]) for l in d["links"] if 0 <= l["dst"] < len(N)):
+        inc("branch:filler-penalty-applied")
+    if not em and N[G["end"]]["lef"] < G["nframes"] - 1:
+        inc("branch:end-node-before-last-frame")
+    if sum(1 for n in N if n["sf"] == 0) > 1:
+        inc("branch:several-frame-0-nodes(A*-seeds)")
+    nulls = sum(1 for h in d["hist"] if h and h[1] >= 0 and h[4] < 0)
+    if nulls:
+        inc("branch:history-has-null-transition-entries")
     b = len(N)
     inc("nodes:" + ("1" if b == 1 else "2-9" if b < 10 else "10-49" if b < 50 else "50+"))
     b = len(d["links"])
